@@ -152,7 +152,7 @@ Example kp_ex_concurrent_rollback :
             k_thr s 0 = KDone (Some (FMine, FMine)) /\ k_thr s 1 = KDone None.
 Proof. eexists. split; [vm_compute; reflexivity|]. repeat split. Qed.
 
-(** Recovery (what ec5c5dd repaired): whatever came before — any state without a foreign
+(** Recovery (what 55396a9 repaired): whatever came before — any state without a foreign
     registration, other calls in flight at any point — if the CA knows the configured key, the
     next call that runs alone and without faults succeeds with that account and leaves it
     completely stored. *)
